@@ -259,8 +259,8 @@ static void assignOne(rkcommon::utility::TransactionalValue<std::string> &tv, co
 
 // ---------------------------------------------------------------------------
 // call records (per-thread logs, no sharing)
-enum Op { PUSH, CONSUME, SIZE, EMPTY, ASSIGN, UPDATE, GET, BPUSH, BURST, PUSHX, ASSIGNX };
-static const char *opName[] = {"push", "consume", "size", "empty", "assign", "update", "get", "bpush", "burst", "pushx", "assignx"};
+enum Op { PUSH, CONSUME, SIZE, EMPTY, ASSIGN, UPDATE, GET, BPUSH, BURST, PUSHX, ASSIGNX, SIZES, EMPTIES };
+static const char *opName[] = {"push", "consume", "size", "empty", "assign", "update", "get", "bpush", "burst", "pushx", "assignx", "sizes", "empties"};
 
 struct Call
 {
@@ -276,6 +276,7 @@ struct Call
   bool viaRef = false;    // get through ref()
   bool threw = false;     // pushx / assignx: the call ended with the payload's exception
   int o = 0;              // object number (histories over several objects)
+  long cnt = 0;           // sizes / empties: number of consecutive calls of one thread that returned the same result
 };
 
 static Json toJson(const Call &c)
@@ -326,6 +327,8 @@ static Json toJson(const Call &c)
   case GET: j.set("v", c.v); j.set("ref", c.viaRef); break;
   case BPUSH: j.set("p", c.p); j.set("first", c.s); j.set("n", c.n); break;   // n push_backs of <<p,first>>, <<p,first+1>>, ...
   case BURST: j.set("first", c.v); j.set("n", c.n); break;                    // n assignments of first, first+1, ...
+  case SIZES: j.set("n", c.n); j.set("cnt", c.cnt); break;                    // cnt consecutive size() calls, every one returned n
+  case EMPTIES: j.set("b", c.b); j.set("cnt", c.cnt); break;                  // cnt consecutive empty() calls, every one returned b
   }
   return j;
 }
@@ -765,6 +768,142 @@ static Json burstBuf(const Json &sc)
   return dumpLogs(logs);
 }
 
+
+// ---------------------------------------------------------------------------
+// observers contending with observers
+//   {"kind":"obs","obj":"buf","payload":..,"R":1..4,"P":0..2,"K":k,"limit":2..4,"MA":polls,"block":b,"calls":cap,"maxrec":cap,
+//    "pre":n,"cj":..,"seed":s}
+// R reader threads (thread ids 9..12) do nothing but call size() / empty() (blocks of `block` calls of one accessor, then the
+// other), released from a busy-wait barrier together with the consumer.
+//   phase A (no producer at all): `pre` elements were pushed and consumed before the threads start; the consumer polls
+//            empty() / size() MA times (and calls consume() now and then) while the readers spin;
+//   phase B (P > 0): the consumer releases P producers that throttle themselves with size() (back-pressure:
+//            while (size() >= limit) yield; push_back) and itself runs the documented poll loop
+//            if (!empty()) consume()   resp.   if (size() > 0) consume()   until every producer has returned.
+// Every size() / empty() call of every thread is recorded, in lossless run-length form: consecutive calls of one thread
+// to the same accessor that returned the same result are ONE record {"op":"sizes"|"empties", result, "cnt":n} whose window
+// spans from the invocation stamp of the first to the response stamp of the last (each call has its own linearisation
+// point inside that window; the contract's macro action BSizeRun_ / BEmptyRun_ asks for one of them).
+template <typename T>
+struct RunLogger
+{
+  rkcommon::containers::TransactionalBuffer<T> &buf;
+  Log &log;
+  int t;
+  bool open = false;
+  Call cur;
+  long calls = 0;
+  RunLogger(rkcommon::containers::TransactionalBuffer<T> &b, Log &l, int tt) : buf(b), log(l), t(tt) {}
+  void add(Op op, long n, bool b, uint64_t inv, uint64_t res)
+  {
+    ++calls;
+    if (open && cur.op == op && cur.n == n && cur.b == b) { cur.res = res; ++cur.cnt; return; }
+    flush();
+    cur = Call(); cur.t = t; cur.op = op; cur.n = n; cur.b = b; cur.inv = inv; cur.res = res; cur.cnt = 1;
+    open = true;
+  }
+  size_t size()
+  {
+    uint64_t i = stamp();
+    size_t n = buf.size();
+    uint64_t r = stamp();
+    add(SIZES, (long)n, false, i, r);
+    return n;
+  }
+  bool empty()
+  {
+    uint64_t i = stamp();
+    bool b = buf.empty();
+    uint64_t r = stamp();
+    add(EMPTIES, 0, b, i, r);
+    return b;
+  }
+  void flush() { if (open) { log.push_back(cur); open = false; } }
+};
+
+template <typename T>
+static Json obsBuf(const Json &sc)
+{
+  const int R = (int)sc["R"].num(), P = (int)sc["P"].num(), K = (int)sc["K"].num();
+  const long limit = (long)sc["limit"].num(), MA = (long)sc["MA"].num(), block = (long)sc["block"].num();
+  const long callCap = (long)sc["calls"].num();
+  const size_t maxrec = (size_t)sc["maxrec"].num();
+  const int pre = (int)sc["pre"].num(), cj = (int)sc["cj"].num();
+  const unsigned seed = (unsigned)sc["seed"].num();
+  rkcommon::containers::TransactionalBuffer<T> buf;
+  std::vector<Log> logs(14);                    // 0 consumer, 1..8 producers, 9..12 readers, 13 before / after
+  std::atomic<int> ready{0}, pdone{0};
+  std::atomic<bool> go{false}, goProd{false}, stop{false};
+  // "nothing has been pushed since the last consume() returned"
+  for (int s = 1; s <= pre; ++s) doPush(buf, logs[13], 1, 1, s, (s & 1) != 0);
+  if (pre > 0) doConsume(buf, logs[13], 0);
+  std::vector<std::thread> readers, prods;
+  for (int i = 0; i < R; ++i) {
+    readers.emplace_back([&, i]() {
+      RunLogger<T> rl(buf, logs[9 + i], 9 + i);
+      logs[9 + i].reserve(maxrec + 2);
+      ready.fetch_add(1);
+      awaitGo(go, true);
+      long n = 0;
+      while (!stop.load(std::memory_order_relaxed) && n < callCap && logs[9 + i].size() < maxrec) {
+        if (((n / block) + i) & 1) rl.size(); else rl.empty();
+        ++n;
+      }
+      rl.flush();
+    });
+  }
+  for (int p = 1; p <= P; ++p) {
+    prods.emplace_back([&, p]() {
+      std::mt19937 r(seed * 7919u + (unsigned)p);
+      RunLogger<T> rl(buf, logs[p], p);
+      ready.fetch_add(1);
+      awaitGo(goProd, true);
+      const int first = (p == 1 ? pre : 0) + 1;
+      for (int s = first; s < first + K; ++s) {
+        while ((long)rl.size() >= limit) std::this_thread::yield();   // back-pressure
+        rl.flush();
+        doPush(buf, logs[p], p, p, s, (r() & 1u) != 0);
+      }
+      pdone.fetch_add(1);
+    });
+  }
+  std::thread cons([&]() {
+    std::mt19937 r(seed * 7919u);
+    Log &log = logs[0];
+    RunLogger<T> rl(buf, log, 0);
+    ready.fetch_add(1);
+    awaitGo(go, true);
+    // phase A: no producer exists yet
+    for (long m = 0; m < MA; ++m) {
+      if ((m / block) & 1) rl.size(); else rl.empty();
+      if (m % 1024 == 1023 && (r() & 3u) == 0) { rl.flush(); doConsume(buf, log, 0); }
+    }
+    rl.flush();
+    // phase B: the documented poll loop, producers throttled by size()
+    if (P > 0) {
+      goProd.store(true);
+      long round = 0;
+      while (pdone.load() < P) {
+        jitter(r, cj);
+        bool some = (round & 1) ? rl.size() > 0 : !rl.empty();
+        if (some) { rl.flush(); doConsume(buf, log, 0); ++round; }
+      }
+      rl.flush();
+    }
+    stop.store(true);
+  });
+  while (ready.load() < R + P + 1) std::this_thread::yield();
+  go.store(true);
+  cons.join();
+  for (auto &t : prods) t.join();
+  for (auto &t : readers) t.join();
+  Log &fin = logs[13];
+  doConsume(buf, fin, 0);
+  doSize(buf, fin, 0);
+  doEmpty(buf, fin, 0);
+  return dumpLogs(logs);
+}
+
 // ---------------------------------------------------------------------------
 // sequential histories generated by TLC
 // Steps may name an object ("o": 0, 1, ...): histories over several instances used by one thread, interleaved.
@@ -953,6 +1092,7 @@ int main(int argc, char **argv)
     if (kind == "conc" && obj == "buf") calls = BUF_DISPATCH(concBuf);
     else if (kind == "conc" && obj == "val") calls = VAL_DISPATCH(concVal);
     else if (kind == "burst" && obj == "buf") calls = BUF_DISPATCH(burstBuf);
+    else if (kind == "obs" && obj == "buf") calls = BUF_DISPATCH(obsBuf);
     else if (kind == "burst" && obj == "val") calls = VAL_DISPATCH(burstVal);
     else if (kind == "seq" && obj == "buf") calls = BUF_DISPATCH(seqBuf);
     else if (kind == "seq" && obj == "val") calls = VAL_DISPATCH(seqVal);
